@@ -30,7 +30,14 @@ def gen_cases(chk):
     for name, l in longs:
         g.note(name.rsplit("_", 1)[0])
         cases.append({"kind": name, "lib": l})
-    return cases, g.dist
+    # directed families (generator audit 2026-10-02), shared with C01 / C03: optional fields holding their default value, all STRANS
+    # flag combinations, record lengths at the 256 / 32768 boundaries, the same name / element / attribute twice, white space and
+    # control characters in strings, more than 1024 structs / elements
+    # (the thousand-struct / thousand-element libraries are left to C01 and C03: the capacity hints they aim at are the reader's)
+    for fam, name, l in directed_libs(chk.seed + 1, quick, many=("many_props",) if quick else True):
+        g.note(fam)
+        cases.append({"kind": name, "lib": l})
+    return spread_heavy(cases), g.dist
 
 def evaluate(chk, libs, tag):
     res = harness("c01", [{"op": "write", "lib": to_json(l)} for l in libs])
@@ -42,7 +49,7 @@ def evaluate(chk, libs, tag):
             continue
         items.append(capp("c02_check", to_coq(l), c_wres(r["w"])))
         idx.append(i)
-    codes = eval_codes(chk, items, tag)
+    codes = eval_codes(chk, items, tag, shard=32)
     for i, c in zip(idx, codes):
         w = res[i]["w"]
         out[i] = (c, {"w": ({"ok_len": len(w["ok"]) // 2, "head": w["ok"][:96]} if "ok" in w else w)})
@@ -66,7 +73,8 @@ def run(chk, replay=None):
     libs = [c["lib"] for c in cases]
     results = evaluate(chk, libs, "c02")
     chk.cov["input_distribution"] = dist
-    chk.cov["rule"] = ("libraries generated as for C01, plus every element kind with all / no optional fields and enumerated optional-field subsets; "
+    chk.cov["rule"] = ("libraries generated as for C01, plus every element kind with all / no optional fields and enumerated optional-field subsets, and the directed libraries "
+                       "(optional fields at their default value, STRANS flag combinations, record lengths at 256 / 32768, repeated names / elements / attributes, white space and control characters, more than 1024 items); "
                        "impl bytes compared with the writer model and decoded by the independent reference decoder; non-trivial = at least one element; distinct by JSON value")
     chk.cov["evaluations"] = len(cases)
     chk.cov["distinct_nontrivial"] = len({lib_key(l) for l in libs if any(s["elems"] for s in l["structs"])})
